@@ -45,6 +45,11 @@ BUILD_STUBS = [
     # named argument (as a **kwargs entry)
     {'name': 'n7', 'kind': 'func',
      'params': [['uid', 'pk', None], ['x', 'pk', 'v'], ['kw', 'vk', None]]},
+    # two callables whose names differ in case style only (name-derived keys)
+    {'name': 'CamelNode', 'kind': 'cls',
+     'params': [['uid', 'pk', None], ['x', 'pk', 'v']]},
+    {'name': 'camel_node', 'kind': 'func',
+     'params': [['uid', 'pk', None], ['x', 'pk', 'v']]},
     # tags attached by annotation (and a cold type-hints cache per run)
     {'name': 'n6', 'kind': 'func',
      'params': [['uid', 'pk', None], ['x', 'pk', 'v', ['T1']],
